@@ -1,4 +1,5 @@
 """Registry: property id -> obligation groups (DESIGN.md section 4)."""
+import json
 import os
 import random
 import sys
@@ -612,6 +613,111 @@ def c18_groups(tier, tag='C18'):
     return gs
 
 
+GBS = 'tfhe_gate_bootstrapping_structures.cpp'
+
+
+def c17_groups(tier, tag='C17'):
+    """C17 and C05 share one harness; the property selects which assertions are compiled in (PROP_C17 / PROP_C05)"""
+    P = {'PROP_' + tag: None}
+    c05 = tag == 'C05'
+    gs = [Group(tag + '.keyset.sections', 'c17_io.c', 'h_struct',
+                extract=[(IO, f) for f in ('write_lweKey', 'write_tGswKey', 'write_lweBootstrappingKey', 'write_tfheGateBootstrappingCloudKeySet', 'write_tfheGateBootstrappingSecretKeySet')]
+                + [(GBS, 'TFheGateBootstrappingCloudKeySet::TFheGateBootstrappingCloudKeySet'), (GBS, 'TFheGateBootstrappingSecretKeySet::TFheGateBootstrappingSecretKeySet'),
+                   (IO, 'read_new_tfheGateBootstrappingCloudKeySet'), (IO, 'read_new_tfheGateBootstrappingSecretKeySet')],
+                defines=dict(P, H_STRUCT=None), unwind=14, timeout=600, replay='io'),
+          Group(tag + '.bootstrappingkey.sections', 'c17_io.c', 'h_bkstruct',
+                extract=[(IO, 'struct:LweKeySwitchParameters'), (IO, 'write_lweBootstrappingKey'), (IO, 'read_new_lweBootstrappingKey')], defines=dict(P, H_BKSTRUCT=None), unwind=14, timeout=600, replay='io')]
+    keyfns = ['write_lweKey_content', 'read_lweKey_content', 'write_tGswKey_content', 'read_tGswKey_content']
+    if c05:
+        keyfns += ['write_tLweKey_content', 'read_tLweKey_content', 'write_lweSample', 'read_lweSample', 'write_tLweSample', 'read_tLweSample']
+    for K in ([1, 2] if tier == 'quick' else [1, 2, 3]):
+        gs.append(Group('%s.key+sample_sections.k=%d' % (tag, K), 'c17_io.c', 'h_keys', extract=[(IO, f) for f in keyfns],
+                        defines=dict(P, H_KEYS=None, VERIF_K=K), unwind=K + 3, timeout=600, instance={'k': K}, replay='io'))
+    gs.append(Group(tag + '.write+read_lweKeySwitchKey_content', 'c17_io.c', 'h_ks', extract=[(IO, 'write_LweKeySwitchKey_content'), (IO, 'read_lweKeySwitchKey_content')],
+                    defines=dict(P, H_KS=None), unwind=10, timeout=1200, instance={'n': 2, 't': 2, 'basebit': 1}, replay='io'))
+    for (K, L) in ([(1, 2), (2, 2)] if tier == 'quick' else [(1, 1), (1, 2), (1, 3), (2, 2), (2, 3), (3, 2)]):
+        d = dict(P, VERIF_K=K, VERIF_L=L)
+        gs.append(Group('%s.write+read_LweBootstrappingKey_content.k=%d.l=%d' % (tag, K, L), 'c17_io.c', 'h_bk',
+                        extract=[(IO, 'write_LweBootstrappingKey_content'), (IO, 'read_LweBootstrappingKey_content')],
+                        defines=dict(d, H_BK=None), unwind=(K + 1) * L + 3, timeout=1200, instance={'k': K, 'l': L, 'n': 2}, replay='io'))
+        if c05:
+            gs.append(Group('%s.write+read_tGswSample.k=%d.l=%d' % (tag, K, L), 'c17_io.c', 'h_tgsw',
+                            extract=[(IO, 'write_tLweSample'), (IO, 'read_tLweSample'), (IO, 'write_tGswSample'), (IO, 'read_tGswSample')],
+                            defines=dict(d, H_TGSW=None), unwind=(K + 1) * L + 3, timeout=1200, instance={'k': K, 'l': L}, replay='io'))
+    return gs
+
+
+def text_format_scan(group):
+    """supporting static fact for the text layer of C05, read off the clang AST of the real tfhe_generic_streams.cpp on every run: the printf
+    conversion MapTextModeProperties::setProperty_double uses, and that getProperty_double parses with a C library decimal parser.
+    Decision rule (the arithmetic behind it is the classical round-trip theorem, not re-proved here): 17 significant decimal digits
+    (%.17g, %.16e) or a hexadecimal mantissa (%a) identify every finite double, so a correctly rounding parser restores it; a FIXED number
+    p of decimals (%.pf) prints every |x| < 0.5e-p as zero and keeps at most p digits of the rest: refuted, with the witness value.
+    Anything else: undecided."""
+    cpp = os.path.join(X.SRC, 'tfhe_generic_streams.cpp')
+    fmts, parsers = [], set()
+
+    def lits(o, acc):
+        if o.get('kind') == 'StringLiteral':
+            acc.append(o.get('value', ''))
+        for c in o.get('inner', []) or []:
+            lits(c, acc)
+
+    def refs(o, acc):
+        if o.get('kind') == 'DeclRefExpr':
+            acc.add(o.get('referencedDecl', {}).get('name'))
+        for c in o.get('inner', []) or []:
+            refs(c, acc)
+
+    def visit(o):
+        if o.get('kind') == 'CXXMethodDecl' and any(c.get('kind') == 'CompoundStmt' for c in o.get('inner', []) or []):
+            if o.get('name') == 'setProperty_double':
+                lits(o, fmts)
+            if o.get('name') == 'getProperty_double':
+                refs(o, parsers)
+        for c in o.get('inner', []) or []:
+            visit(c)
+    for o in X.clang_ast(cpp, 'MapTextModeProperties'):
+        visit(o)
+    fm = [json.loads(f) if f.startswith('"') else f for f in fmts]
+    fm = [f for f in fm if '%' in f]
+    if len(fm) != 1:
+        raise X.ExtractionError('setProperty_double: expected exactly one format string, found %r' % (fm,))
+    if not (parsers & {'stold', 'stod', 'strtod', 'strtold', 'atof'}):
+        raise X.ExtractionError('getProperty_double: no C library decimal parser referenced (%s)' % sorted(x for x in parsers if x))
+    f = fm[0]
+    m = re.match(r'^%(?:\.(\d+))?[lL]?([fFeEgGaA])$', f)
+    if not m:
+        raise X.ExtractionError('setProperty_double: format %r is not a single floating conversion' % f)
+    prec = int(m.group(1)) if m.group(1) is not None else None
+    conv = m.group(2).lower()
+    if conv == 'a' and (prec is None or prec >= 13):
+        ok, why = True, 'hexadecimal mantissa: exact'
+    elif conv == 'g' and prec is not None and prec >= 17:
+        ok, why = True, '%d significant digits identify every finite double' % prec
+    elif conv == 'e' and prec is not None and prec >= 16:
+        ok, why = True, '%d significant digits identify every finite double' % (prec + 1)
+    elif conv == 'f':
+        p_ = 6 if prec is None else prec
+        ok, why = False, ('a fixed number of %d decimals: every |x| < 0.5e-%d is written as zero and the rest keeps at most %d decimals -- e.g. the default sets\' '
+                          '2^-25 = 2.98023223876953125e-08 and 7.18e-9 are written 0.00000003 / 0.00000001 for 8 decimals') % (p_, p_, p_)
+    elif conv in ('g', 'e', 'a'):
+        need = {'g': 17, 'e': 16, 'a': 13}[conv]
+        ok, why = False, 'precision %s keeps fewer than 17 significant digits (needs >= %d): distinct doubles are written identically' % (prec, need)
+    else:
+        raise X.ExtractionError('unexpected conversion in %r' % f)
+    return [('setProperty_double.format_roundtrips', ok, 'static AST fact: real-valued parameters are written with "%s" and parsed back with %s: %s'
+             % (f, '/'.join(sorted(parsers & {'stold', 'stod', 'strtod', 'strtold', 'atof'})), why))]
+
+
+def c05_groups(tier):
+    gs = c17_groups(tier, 'C05')
+    sg = StaticGroup('C05.static.text_double_format', text_format_scan)
+    sg.replay = 'iotext'
+    gs.append(sg)
+    return gs
+
+
 PROPS = {
     'C13': {
         'groups': c13_groups,
@@ -792,6 +898,49 @@ PROPS = {
             'k and l enumerated; message constants m in {0,1,2,3} for tGswAddMuIntH and {1,3,-1} for the truncation identity (symbolic 32x32 multipliers undecided)',
             'tGswAddMuH (polynomial message) and tGswExternProduct are not under contract',
             '"the FFT-domain key is a faithful image": only that every row is transformed once into its own slot',
+        ],
+        'trusted': [],
+    },
+    'C05': {
+        'groups': c05_groups,
+        'level': 'proof',
+        'explanation': 'BINARY sections and section structure by CBMC; of the text layer only the conversion used for real-valued parameters (static fact, see assumptions). '
+                       'The real bodies of every binary writer and its reader (LWE / TLWE / TGSW samples, LWE / TLWE / TGSW keys, key-switching rows, bootstrapping rows) '
+                       'against a byte-stream monitor, ghost index over every write: the reader, reading into the same object, makes the same number of reads and its w-th read '
+                       'has the pointer and byte count of the w-th write, so every binary field comes back from exactly the bytes it was written to (field-for-field equality and '
+                       'byte-identical re-export of these sections); the tag written is the tag demanded; for key material the ONE variance written is the maximum over the rows '
+                       'and every imported row carries the stored value. The real bodies of the composite writers / readers (bootstrapping key, cloud and secret key sets) against '
+                       'section monitors: the importer reads, in order, exactly the sections the exporter wrote, with parameter text present exactly when the importer is not '
+                       'given the parameters, and the imported structure holds the objects read.',
+        'assumptions': STD_ASSUME + [
+            'TEXT layer: only the printf conversion of real-valued parameters is decided, as a static AST fact read off the real source on every run (C05.static.text_double_format: >= 17 significant '
+            'digits accepted, a fixed number of decimals refuted with a witness, anything else undecided); the round-trip theorem for 17 significant digits and correctly rounding libc printf / strtold are '
+            'ASSUMED. std::map ordering, titles, the line parser and stold itself are out of reach of the C front end and NOT covered',
+            'stream stubs = assumed contract of the two stream classes (fwrite copies the bytes given, fread fills the bytes requested); virtual dispatch collapsed into one stub (R8); '
+            'FILE / C++-stream wrappers, concatenation of several objects in one stream, FFT-domain samples, functional equivalence of a re-imported key are not under contract',
+            'read_new_lweKey / read_new_tGswKey / read_new_tfheGateBootstrappingParameters are stubs in the key-set harness (they read their parameter text exactly when no parameters are given: their two-line bodies, not re-proved)',
+            'table shapes (n, t, basebit, k, l) small enumerated, coefficient dimensions symbolic; loops over the enumerated shapes are unwound completely (unwinding assertions)',
+        ],
+        'trusted': [],
+    },
+    'C17': {
+        'groups': c17_groups,
+        'level': 'proof',
+        'explanation': 'Section structure and binary sections only. (1) The real bodies of the cloud / secret key-set writers, of the cloud key-set reader and of the bootstrapping-key '
+                       'writer against section monitors, loop-free, all flag values: the cloud export is exactly [parameter text iff requested] + key-switching parameter text + '
+                       'key-switching rows + bootstrapping rows, built only from objects reachable from the cloud structure, no key section and no key object handed to any writer; '
+                       'the secret export begins with the same sections with the same arguments and has more (strict prefix); the cloud import reads no key section and produces '
+                       'exactly (parameters, key, FFT image). (2) The real bodies of the two binary row writers against a byte-stream monitor: the w-th write (ghost index) is exactly '
+                       'the w-th field of the row layout, sources readable for the byte count, nothing else written, total size = the closed form in the parameters. '
+                       '(3) The two secret-only sections are non-empty and of the size fixed by the parameters.',
+        'assumptions': STD_ASSUME + [
+            'the TEXT sections (parameter sets, key-switching parameter section: TextModeProperties / std::map / sprintf) are out of reach: their byte size and content are NOT covered; '
+            '"exact size" is decided for the binary sections only',
+            '"contains neither the LWE key bits nor the ring key coefficients in any encoding" is decided structurally (no key section, no key object handed to a writer, every exported '
+            'byte comes from a row of the key-switching / bootstrapping tables, the tag or the variance); that the ROWS themselves do not leak the keys is the encryption property (C07), not decided here',
+            'stream stubs = assumed contract of the two stream classes (fwrite copies the bytes given, fread fills the bytes requested); virtual dispatch collapsed into one stub (R8); '
+            'FILE / C++-stream wrappers (to_Ostream / to_Istream, export_*_toFile / _toStream) are not under contract',
+            'table shapes (n, t, basebit, k, l) small enumerated, coefficient dimensions n_out, N symbolic up to 4096; loops over the enumerated shapes are unwound completely (unwinding assertions)',
         ],
         'trusted': [],
     },
